@@ -20,6 +20,8 @@ type walker struct {
 	h       uint64
 	h2      uint64
 	seen    map[uintptr]int
+	active  map[uintptr]bool // containers on the current path (a mutated document can be cyclic)
+	depth   int
 }
 
 const (
@@ -47,6 +49,24 @@ func (w *walker) walk(v reflect.Value, path func() string) {
 	if !v.IsValid() {
 		w.leaf(path, "nil")
 		return
+	}
+	w.depth++
+	defer func() { w.depth-- }()
+	if w.depth > 2000 {
+		w.leaf(path, "<deeper than 2000 levels>")
+		return
+	}
+	if k := v.Kind(); (k == reflect.Map || k == reflect.Slice) && !v.IsNil() && v.Len() > 0 {
+		p := v.Pointer()
+		if w.active == nil {
+			w.active = map[uintptr]bool{}
+		}
+		if w.active[p] {
+			w.leaf(path, "<cycle: container contains itself>")
+			return
+		}
+		w.active[p] = true
+		defer delete(w.active, p)
 	}
 	switch v.Kind() {
 	case reflect.Bool:
